@@ -592,6 +592,35 @@ fn gen_text(rng: &mut Rng, valid_only: bool, allow_long: bool, cap: usize) -> Te
     Text { bytes, lines: newlines + partial }
 }
 
+/// A very long line — around the later doublings of the buffer (8x, 12x, 16x the initial capacity,
+/// i.e. 64 KiB and 128 KiB for the real code) — followed by several medium lines (2–5 KB each), so
+/// that much more than one chunk of further input is already buffered when the long line is
+/// returned and whatever the code does to its buffer afterwards (shrink, compact, re-scan) is
+/// visible within the next few calls.
+fn gen_long_tail(rng: &mut Rng, cap: usize) -> Text {
+    let c = cap.clamp(4, 8192);
+    let len = *rng.pick(&[8 * c - 1, 8 * c, 8 * c + 1, 8 * c + c / 2, 12 * c, 16 * c - 1, 16 * c, 16 * c + 1]);
+    let mut bytes = Vec::new();
+    if rng.chance(1, 3) {
+        bytes.extend_from_slice(b"first\n");
+    }
+    bytes.extend(long_line(rng, len));
+    bytes.push(b'\n');
+    let tail = 3 + rng.below(6);
+    for i in 0..tail {
+        let l = (c / 4 + rng.below((c / 2) as u64 + 1) as usize).max(1);
+        let mut line = format!("t{i}:").into_bytes();
+        line.extend(long_line(rng, l));
+        bytes.extend_from_slice(&line);
+        if i + 1 < tail || rng.chance(7, 10) {
+            bytes.push(b'\n');
+        }
+    }
+    let newlines = bytes.iter().filter(|&&b| b == b'\n').count();
+    let partial = usize::from(bytes.last().is_some_and(|&b| b != b'\n'));
+    Text { bytes, lines: newlines + partial }
+}
+
 fn cut_at(text: &[u8], cuts: &mut Vec<usize>) -> Vec<Vec<u8>> {
     cuts.retain(|&c| c > 0 && c < text.len());
     cuts.sort_unstable();
@@ -692,8 +721,17 @@ fn generate(args: &[String]) -> i32 {
     let mut rng = Rng::new(seed ^ 0xC17);
     let mut out = Out::new();
     for _ in 0..n {
-        let text = gen_text(&mut rng, valid_only, allow_long, cap);
-        let chunks = gen_chunking(&mut rng, &text.bytes, cap);
+        let long_tail = allow_long && rng.chance(1, 12);
+        let text = if long_tail { gen_long_tail(&mut rng, cap) } else { gen_text(&mut rng, valid_only, allow_long, cap) };
+        let chunks = if long_tail && text.bytes.len() <= MAX_CHUNK && rng.chance(1, 2) {
+            vec![text.bytes.clone()] // everything is in the pipe before the first read
+        } else if long_tail {
+            // big pieces: the tail arrives together with the end of the long line
+            let mut cuts = vec![text.bytes.len() / 2, text.bytes.len() / 2 + rng.below(4096) as usize];
+            cut_at(&text.bytes, &mut cuts)
+        } else {
+            gen_chunking(&mut rng, &text.bytes, cap)
+        };
         let l = text.lines;
         let calls = match rng.below(10) {
             0..=5 => l + 1,
